@@ -152,6 +152,15 @@ def apply_op(sheet, op):
             mop = 'd.%d' % op[1]
             sheet.deleteRule(op[1])
             return 'none', mop
+        if kind == 'delobj':
+            # deleteRule(<rule object>): the rule at that index, or a rule that is not in the sheet
+            i = op[1]
+            if 0 <= i < len(sheet.cssRules):
+                target, mop = sheet.cssRules[i], 'd.%d' % i
+            else:
+                target, mop = _setup().css.CSSStyleRule(selectorText='zz'), 'd.99'
+            sheet.deleteRule(target)
+            return 'none', mop
         if kind == 'enc':
             mop = 'e.%s' % ('n' if op[1] is None else op[1])
             sheet.encoding = None if op[1] is None else ENC[op[1]]
@@ -340,6 +349,63 @@ def cont_cases(tier, seed):
     return cases
 
 
+def list_oracle(case, _e=None):
+    """insertRule(<CSSRuleList>, index) on sheets and on @media rules: all of the rules or none (a refused list leaves the
+    container unchanged, object by object), and an accepted one leaves valid CSS"""
+    cp = _setup()
+    _, base, codes, idx, container = case
+    sheet = new_sheet()
+    for code in base:
+        try:
+            sheet.add(make_obj(code, sheet))
+        except xml.dom.DOMException:
+            pass
+    target = sheet
+    if container:
+        target = cp.css.CSSMediaRule(mediaText='print')
+        target.insertRule('q { top: 0 }')
+        sheet.add(target)
+    src = new_sheet()
+    lst = cp.css.CSSRuleList()
+    for code in codes:
+        if not code.startswith('s:') and not code.startswith('n:'):
+            list.append(lst, make_obj(code, src))      # (CSSRuleList.append is bound to a sheet; a plain list of rule objects)
+    before = list(target.cssRules)
+    top_before = list(sheet.cssRules)
+    try:
+        target.insertRule(lst, min(idx, len(before)))
+        refused = None
+    except xml.dom.DOMException as e:
+        refused = type(e).__name__
+    after = list(target.cssRules)
+    if refused:
+        if len(after) != len(before) or any(a is not b for a, b in zip(after, before)):
+            return 'insertRule(<list of %s>, %d) was refused (%s) but changed the rules: %s -> %s' % (
+                ' '.join(codes), idx, refused, ' '.join(KIND_BY_TYPE[r.type] for r in before), ' '.join(KIND_BY_TYPE[r.type] for r in after))
+        bad = [r for r in lst if r.parentStyleSheet is sheet or r.parentRule is target]
+        if bad:
+            return 'insertRule(<list of %s>, %d) was refused (%s) but %d of its rules name the container as parent' % (
+                ' '.join(codes), idx, refused, len(bad))
+    kinds = [KIND_BY_TYPE[r.type] for r in sheet.cssRules]
+    if not py_valid(kinds):
+        return 'after insertRule(<list of %s>, %d) the rule list is %s - not valid CSS order' % (' '.join(codes), idx, ' '.join(kinds))
+    if container and set(KIND_BY_TYPE[r.type] for r in target.cssRules) & MEDIA_FORBIDS:
+        return 'after insertRule(<list of %s>, %d) the @media rule holds a forbidden kind' % (' '.join(codes), idx)
+    if len(list(sheet.cssRules)) != len(top_before) and container:
+        return 'insertRule into the @media rule changed the sheet\'s own rule list'
+    return ''
+
+
+def list_cases(tier, seed):
+    rnd = random.Random(seed + 77)
+    codes = ['c1', 'i', 'p', 's', 'm', 'f', 'u', 'x']
+    out = []
+    for _ in range(400 if tier == 'quick' else 8000):
+        out.append(('list', tuple(rnd.choice(codes) for _ in range(rnd.randint(0, 4))),
+                    tuple(rnd.choice(codes) for _ in range(rnd.randint(1, 4))), rnd.randint(0, 4), rnd.random() < 0.4))
+    return out
+
+
 RULES = ['c1', 'i', 'n:1:1', 'n:0:2', 'p', 's', 'm', 'f', 'u', 'x']
 
 
@@ -353,6 +419,8 @@ def all_ops(maxlen):
         ops.append(('ins', code, None, True, False))
     for i in range(-maxlen, maxlen):
         ops.append(('del', i))
+    for i in range(0, maxlen + 1):
+        ops.append(('delobj', i))
     ops += [('enc', 1), ('enc', 2), ('enc', None)]
     ops += [('nsset', 1, 1), ('nsset', 1, 2), ('nsset', 0, 1), ('nsdel', 1), ('nsdel', 0)]
     ops += [('assign', ('x', 'i', 's')), ('assign', ('s', 'i')), ('assign', ())]
@@ -394,8 +462,10 @@ def gen_cases(tier, seed):
                 inorder = rnd.random() < 0.4
                 idx = None if ((inorder and rnd.random() < 0.5) or rnd.random() < 0.2) else rnd.randint(-1, 7)
                 h.append(('ins', code, idx, inorder, rnd.random() < 0.5))
-            elif r < 0.7:
+            elif r < 0.66:
                 h.append(('del', rnd.randint(-7, 7)))
+            elif r < 0.7:
+                h.append(('delobj', rnd.randint(0, 7)))
             elif r < 0.78:
                 h.append(('enc', rnd.choice([1, 2, None])))
             elif r < 0.9:
@@ -430,8 +500,17 @@ def run(tier, seed):
         c, line, e, g = cres['mismatches'][0]
         broken.append('correspondence op `cont` diverges on %d histories; first %r impl=%s model=%s' % (
             cres['n_mismatch'], c, e[-300:], g[-300:]))
+    lcases = list_cases(tier, seed)
+    lres = corr.run('c07list', lcases, lambda c: 'numval -', lambda c: '~', list_oracle, chunk=100)
+    for case, why in lres['oracle_fail'][:6]:
+        findings.add('rule-list', repr(case), why)
+    # how much of the code the model transcribes do the correspondence inputs execute (a measurement, not a verdict)
+    _sample = cases[::max(1, len(cases) // 2500)]
+    coverage_lines = lib.modelled_code_coverage([('css_parser.css.cssstylesheet', 'CSSStyleSheet.insertRule'), ('css_parser.css.cssstylesheet', 'CSSStyleSheet.deleteRule'), ('css_parser.css.cssstylesheet', 'CSSStyleSheet._cleanNamespaces'), ('css_parser.css.cssstylesheet', 'CSSStyleSheet._setEncoding'), ('css_parser.util', '_Namespaces.__setitem__'), ('css_parser.util', '_Namespaces.__delitem__')], [lambda c=c: py_of(c) for c in _sample] + [lambda c=c: list_oracle(c) for c in lcases[:200]], limit=2705)
     coverage = {
+        'modelled_code_line_coverage': coverage_lines,
         'container_histories': cres['n'],
+        'rule_list_insertions': lres['n'],
         'evaluations': sum(len(h) for h in cases) + sum(len(c[1]) for c in ccases),
         'distinct_nontrivial': len(set(cases)),
         'rule': 'cases = operation histories from the empty sheet over 10 representative rules (text and object '
